@@ -16,6 +16,7 @@ package pppoe
 //     S/<mac>/<sv>/<cv>/<sid>/<kind>       session-stage frame; kind: see vc04Frame (LCP codes, PAP, CHAP, IPCP, IPv6CP, IPv6, unknown)
 //     D/<sid>                              dead peer reported by the echo generator
 //     X/<sid>/<mac>/<sv>/<cv>              restore of a persisted session (installInMemoryState)
+//     K/<mac>/<sv.cv>,<sv.cv>,...          equivalence classes of c.sessionKey over these tuples
 //     W/<k>                                wait until the k-th second after the first second of the case
 //     L/<ttl_s>                            change the cookie manager's lifetime (unsafe seam)
 //     C/<n>/<sv>                           n concurrent PADRs (distinct MACs) with valid cookies
@@ -569,6 +570,25 @@ func (w *vc04World) op(tok string) string {
 			sb = append(sb, "u"+strconv.Itoa(u))
 		}
 		return "reach:" + strings.Join(sb, "+")
+	case "K":
+		// K/<mac>/<sv.cv>,<sv.cv>,...: which of these tuples does sessionKey render identically (class ids)
+		var keys []string
+		for _, q := range strings.Split(p[2], ",") {
+			ab := strings.Split(q, ".")
+			keys = append(keys, c.sessionKey(net.HardwareAddr(vc04Hex(p[1])), vc04U16(ab[0]), vc04U16(ab[1])))
+		}
+		var cls []string
+		for i := range keys {
+			id := i
+			for j := 0; j < i; j++ {
+				if keys[j] == keys[i] {
+					id = j
+					break
+				}
+			}
+			cls = append(cls, strconv.Itoa(id))
+		}
+		return "kcls:" + strings.Join(cls, ".")
 	case "W":
 		k, _ := strconv.ParseInt(p[1], 10, 64)
 		if time.Now().Unix() != w.cur || !vc04WaitUntil(w.now+k) {
